@@ -19,7 +19,7 @@ PROPERTY = {
                'triples': 'all ordered triples over Shapes(<=3 nodes) (18 shapes) x 4 of the 16 key-variant combinations (quick) / all 16 (thorough) / Shapes(<=4, depth 2) sampled by stride (thorough)'},
     'outside': ['negative integer keys addressing list elements from the end', 'float/bool/null keys in later stages', 'anchors, aliases, block style'],
     'per_split_timeout': {'quick': 900, 'thorough': 2400},
-    'wall_budget': {'quick': 1200, 'thorough': 3400},
+    'wall_budget': {'quick': 1500, 'thorough': 7000},
 }
 
 KEYVARS = [{}, {'a': '0', 'b': '1'}, {'a': '1', 'b': '5'}, {'a': '5', 'b': '0'}]
